@@ -72,9 +72,10 @@ def do_query(b, side, kind, path):
                 h.close()
             r = side.world.cid_of(data, side.fs)
         elif kind == 'walk':
-            r = [[d, list(sd), list(sf)] for d, sd, sf in b.walk(path)]
+            # the order of names is unspecified by the API: a deterministic user function normalises it
+            r = sorted([[d, sorted(sd), sorted(sf)] for d, sd, sf in b.walk(path)])
         elif kind == 'list_dir':
-            r = list(b.list_dir(path))
+            r = sorted(b.list_dir(path))
         else:
             r = getattr(b, kind)(path)
     except OSError as e:
